@@ -423,6 +423,23 @@ pub fn vt_inner(f: &mut dyn FnMut(&[u8])) {
 			emit_index(&m);
 		}
 	}
+	// block records on deep levels with block columns / rows around 2^16, 2^24 and 2^31 (a block coordinate counts
+	// blocks of 256 tiles: level z has 2^(z-8) of them per axis) and level bytes up to 255
+	for z in [0u8, 8, 16, 23, 24, 25, 30, 31, 32, 255] {
+		for c in [0u32, 1, 255, 256, 65535, 65536, (1 << 23) - 1, 1 << 23, (1 << 24) - 1, 1 << 24, (1 << 24) + 1, (1u32 << 31) - 1, 1 << 31, u32::MAX] {
+			for axis in 0..3 {
+				let mut m = index.clone();
+				m[0] = z;
+				if axis != 1 {
+					m[1..5].copy_from_slice(&c.to_be_bytes());
+				}
+				if axis != 0 {
+					m[5..9].copy_from_slice(&c.to_be_bytes());
+				}
+				emit_index(&m);
+			}
+		}
+	}
 	// tile index of the first block
 	let rec = &index[..33];
 	let off = be(&rec[13..]) as usize;
@@ -549,6 +566,56 @@ pub fn pm_inner(f: &mut dyn FnMut(&[u8])) {
 fn mvt_inner(f: &mut dyn FnMut(&[u8])) {
 	// hand-made structural corruptions: odd tag list, huge lengths, wrong wire types, deep/invalid varints
 	use mvt::{feat, layer, point, s};
+	// fields of numbers a reader does not know (it has to step over them), of every wire type, whose length / value is
+	// on the borders of 32 and 64 bits - in the tile, in a layer, in a feature and in a value message, at the start and
+	// at the end of the message
+	{
+		let varint = |mut v: u64| -> Vec<u8> {
+			let mut o = vec![];
+			loop {
+				let b = (v & 0x7f) as u8;
+				v >>= 7;
+				if v == 0 {
+					o.push(b);
+					return o;
+				}
+				o.push(b | 0x80);
+			}
+		};
+		let msg = |field: u32, body: &[u8]| -> Vec<u8> {
+			let mut o = varint(((field as u64) << 3) | 2);
+			o.extend(varint(body.len() as u64));
+			o.extend_from_slice(body);
+			o
+		};
+		let value = msg(1, b"v"); // string_value
+		let feature = { let mut b = vec![0x08, 0x01, 0x18, 0x01]; b.extend(msg(4, &[9, 2, 2])); b.splice(0..0, msg(2, &[0, 0])); b };
+		let mut unknowns: Vec<Vec<u8>> = vec![];
+		for field in [7u32, 9, 16, 1000] {
+			for len in [0u64, 1, 5, 1 << 31, (1 << 32) - 1, 1 << 32, 1 << 62, (1 << 63) - 1, 1 << 63, u64::MAX - 40, u64::MAX - 8, u64::MAX - 1, u64::MAX] {
+				let mut u = varint(((field as u64) << 3) | 2);
+				u.extend(varint(len));
+				u.extend_from_slice(b"abcde");
+				unknowns.push(u);
+			}
+			for wire in [0u64, 1, 5, 3, 4, 6, 7] {
+				let mut u = varint(((field as u64) << 3) | wire);
+				u.extend_from_slice(&[0xff, 0xff, 0xff, 0xff, 0xff, 0xff, 0xff, 0xff, 0xff, 0x01]);
+				unknowns.push(u);
+			}
+		}
+		for u in &unknowns {
+			for at_end in [false, true] {
+				let put = |body: &[u8]| -> Vec<u8> { if at_end { [body, u.as_slice()].concat() } else { [u.as_slice(), body].concat() } };
+				// in a value, a feature, a layer, the tile
+				let layer_of = |val: &[u8], feat: &[u8], extra: &[u8]| -> Vec<u8> { let mut l = msg(1, b"a"); l.extend(msg(2, feat)); l.extend(msg(3, b"k")); l.extend(msg(4, val)); l.extend_from_slice(&[0x28, 0x80, 0x20, 0x78, 0x02]); l.extend_from_slice(extra); l };
+				f(&msg(3, &layer_of(&put(&value), &feature, &[])));
+				f(&msg(3, &layer_of(&value, &put(&feature), &[])));
+				f(&msg(3, &if at_end { layer_of(&value, &feature, u) } else { [u.as_slice(), &layer_of(&value, &feature, &[])].concat() }));
+				f(&put(&msg(3, &layer_of(&value, &feature, &[]))));
+			}
+		}
+	}
 	let odd = vec![layer("a", &["k"], vec![s("v")], vec![feat(Some(1), &[0, 0, 0], 1, point(1, 1))])];
 	f(&mvt::encode_tile(&odd));
 	let oob = vec![layer("a", &["k"], vec![s("v")], vec![feat(Some(1), &[5, 9], 1, point(1, 1))])];
